@@ -12,7 +12,8 @@ from harness.common import VERIF, drain_failures, make_orchestrator, parse_json_
 from harness.framework import Check
 
 PROP = "C18"
-FLAGS = ["q_global_on_covered", "q_prefix_without_separator", "q_path_relative_to_cwd", "q_allow_dict_unsupported"]
+FLAGS = ["q_global_on_covered", "q_prefix_without_separator", "q_path_relative_to_cwd", "q_allow_dict_unsupported",
+         "q_trailing_slash_depth"]
 HEADER = ("From TL Require Import Lib.Base Lib.GenTypes Model.PlacementTypes Gen.PlacementGen Model.Placement "
           "Model.PlacementRun Actual.PlacementActual.\n")
 
@@ -51,12 +52,14 @@ def _aitem(r, bad, dicty):
 
 
 def _rule(r, knobs):
+    """shape first (neither / only allow / only deny / both), then each list possibly empty"""
+    shape = r.choice(["neither", "allow", "allow", "deny", "deny", "both", "both", "both"])
     rule = {"allow": None, "deny": None}
-    if r.random() < 0.6:
-        n = 0 if r.random() < 0.06 else r.randint(1, 3)
+    if shape in ("allow", "both"):
+        n = 0 if r.random() < 0.12 else r.randint(1, 3)
         rule["allow"] = [_aitem(r, r.random() < knobs["bad"], r.random() < knobs["adict"]) for _ in range(n)]
-    if r.random() < 0.5:
-        n = 0 if r.random() < 0.05 else r.randint(1, 3)
+    if shape in ("deny", "both"):
+        n = 0 if r.random() < 0.12 else r.randint(1, 3)
         rule["deny"] = [_ditem(r, r.random() < knobs["bad"]) for _ in range(n)]
     return rule
 
@@ -72,7 +75,9 @@ def gen_case(seed: int, i: int, n_files: int):
             if keys and r.random() < 0.35:   # a child or a string-extension of a key already chosen
                 base = r.choice(keys)
                 if base != "/":
-                    k = base + r.choice(["/api", "/v1", "/core", "2", "s", "/unit"])
+                    k = base.rstrip("/") + r.choice(["/api", "/v1", "/core", "2", "s", "/unit", "64"])
+            if not k.endswith("/") and r.random() < 0.3:   # the same directory written with a trailing slash
+                k = k + "/"
             if k not in keys:
                 keys.append(k)
         cfg["dirs"] = [[k, _rule(r, knobs)] for k in keys]
@@ -83,12 +88,12 @@ def gen_case(seed: int, i: int, n_files: int):
     via = r.choices(["api", "cli-rules", "cli-yaml", "cli-json"], [0.94, 0.03, 0.02, 0.01])[0]
     wrap = r.choice(["file-placement", "file_placement", None]) if via in ("api", "cli-rules") else "file-placement"
     paths = []
-    real_keys = [k for k, _ in (cfg["dirs"] or []) if k != "/"]
+    real_keys = [k.rstrip("/") for k, _ in (cfg["dirs"] or []) if k != "/"]
     for _ in range(n_files * 3):
         k = r.random()
         if real_keys and k < 0.5:      # directories in and around the configured keys
             base = r.choice(real_keys)
-            d = r.choice([base, base, base + "/" + r.choice(["api", "v1", "sub", "unit"]), base + "2", base + "s",
+            d = r.choice([base, base, base + "/" + r.choice(["api", "v1", "sub", "unit"]), base + "2", base + "s", base + "64",
                           base.rsplit("/", 1)[0] if "/" in base else "", base + "/" + r.choice(["api", "v1"]) + "/deep"])
         elif k < 0.62:
             d = ""
@@ -96,9 +101,7 @@ def gen_case(seed: int, i: int, n_files: int):
             d = r.choice(DIRS)
         name = r.choice(NAMES)
         if real_keys and not d and r.random() < 0.3:
-            name = r.choice(real_keys).split("/")[0] + r.choice(["file.py", ".py", "_notes.md", ""])
-            if not name:
-                continue
+            name = r.choice(real_keys).split("/")[0] + r.choice(["file.py", ".py", "_notes.md", "rary.txt"])
         p = (d + "/" if d else "") + name
         if any(part in ("dist", "build", "venv", "htmlcov") for part in p.split("/")) or p.split("/")[-1] in ("src.py", "src"):
             continue   # hard-coded exclusions of the orchestrator; `src.py` would shadow the package under `python -m src.cli_main`
@@ -379,7 +382,59 @@ def run_impl(case):
 
 
 # ------------------------------------------------------------------ judging
-def judge(cases, impls, workdir: Path, per_shard=None):
+MODEL_FILES = [("Model", "PlacementTypes.v"), ("Gen", "PlacementGen.v"), ("Model", "Placement.v"), ("Model", "PlacementRun.v"),
+               ("Actual", "PlacementActual.v")]
+
+
+def recorded_layer_theories(dst: Path) -> Path | None:
+    """When the current generated layer (or the model on top of it) no longer builds, the model is rebuilt in a scratch
+    directory against the generated layer recorded for the unchanged tree (coq/Gen.expected/PlacementGen.v.txt).  This
+    discharges nothing (the run is already failed by the broken obligation); it only lets the search exhibit a concrete
+    input on which the changed implementation departs from the specification beyond the listed findings."""
+    import shutil
+    import subprocess
+    snap = coq.COQ / "Gen.expected" / "PlacementGen.v.txt"
+    if not snap.exists():
+        return None
+    th = dst / "theories"
+    for sub in ("Lib", "Model", "Gen", "Actual"):
+        (th / sub).mkdir(parents=True, exist_ok=True)
+    for f in (coq.TH / "Lib").glob("*.vo"):
+        shutil.copy(f, th / "Lib" / f.name)
+    for sub, name in MODEL_FILES:
+        if sub == "Gen":
+            (th / sub / name).write_text(snap.read_text())
+        else:
+            shutil.copy(coq.TH / sub / name, th / sub / name)
+        p = subprocess.run(["timeout", "300", "coqc", "-Q", str(th), "TL", "-w", "-notation-overridden", str(th / sub / name)],
+                           capture_output=True, text=True, cwd=str(dst))
+        if p.returncode != 0:
+            return None
+    return th
+
+
+def _eval_shards(workdir: Path, header: str, shards, th: Path, timeout: int = 900):
+    """coq.eval_shards against another theories directory"""
+    import subprocess
+    from concurrent.futures import ThreadPoolExecutor
+    workdir.mkdir(parents=True, exist_ok=True)
+    paths = []
+    for i, body in enumerate(shards):
+        p = workdir / f"cases_{i}.v"
+        p.write_text(header + "\n" + body + "\n")
+        paths.append(p)
+
+    def one(p):
+        r = subprocess.run(["timeout", str(timeout), "coqc", "-Q", str(th), "TL", "-w", "-notation-overridden,-abstract-large-number", str(p)],
+                           capture_output=True, text=True, cwd=str(p.parent))
+        if r.returncode != 0:
+            raise RuntimeError(f"coqc failed on {p.name} (rc={r.returncode}): {r.stderr[-1500:]}")
+        return coq.parse_nat_lists(r.stdout)
+    with ThreadPoolExecutor(max_workers=12) as ex:
+        return list(ex.map(one, paths))
+
+
+def judge(cases, impls, workdir: Path, per_shard=None, th: Path | None = None):
     if per_shard is None:   # one round of shards over the worker threads when possible, at most 40 cases per shard
         per_shard = min(40, max(6, -(-len(cases) // 16)))
     shards, index = [], []
@@ -387,7 +442,7 @@ def judge(cases, impls, workdir: Path, per_shard=None):
         chunk = list(range(st, min(len(cases), st + per_shard)))
         shards.append("\n".join(f"Eval vm_compute in ({coq_case(cases[j], impls[j])})." for j in chunk))
         index.append(chunk)
-    outs = coq.eval_shards(workdir, HEADER, shards)
+    outs = coq.eval_shards(workdir, HEADER, shards) if th is None else _eval_shards(workdir, HEADER, shards, th)
     verdicts = [None] * len(cases)
     for chunk, out in zip(index, outs):
         if len(out) != len(chunk):
@@ -410,8 +465,8 @@ def load_known_d(chk: Check):
 def classify(cfg, f):
     """which rule kinds bear on the file (for the distribution and the non-triviality rule)"""
     p = relpath(f)
-    cov = [k for k, _ in (cfg["dirs"] or []) if (k == "/" and "/" not in p) or p.startswith(k + "/")]
-    near = [k for k, _ in (cfg["dirs"] or []) if k != "/" and p.startswith(k) and not p.startswith(k + "/")]
+    cov = [k for k, _ in (cfg["dirs"] or []) if (k == "/" and "/" not in p) or (k != "/" and p.startswith(k.rstrip("/") + "/"))]
+    near = [k for k, _ in (cfg["dirs"] or []) if k != "/" and p.startswith(k.rstrip("/")) and not p.startswith(k.rstrip("/") + "/")]
     return cov, near
 
 
@@ -427,8 +482,8 @@ def corpus_cases():
 def run(tier: str, seed: int, replay: str | None = None) -> int:
     chk = Check(PROP, tier, seed)
     load_known_d(chk)
-    chk.rule = ("seeded random rule sets over a small alphabet of directory keys (nested keys, sibling keys sharing a string prefix, the "
-                "root key '/') and regex patterns (allow/deny lists, string and {pattern, reason|message} items, global_deny, "
+    chk.rule = ("seeded random rule sets over a small alphabet of directory keys (nested keys, keys with and without a trailing slash, sibling files and directories sharing a key's string prefix, the "
+                "root key '/') and regex patterns (rules with neither / only allow / only deny / both lists, empty lists, string and {pattern, reason|message} items, global_deny, "
                 "global_patterns, occasionally a syntactically invalid pattern) x every path of a generated tree (root-level files, "
                 "nested directories, names that extend a key without a separator, upper-case names), handed to the linter as an "
                 "absolute path or relative to a working directory, through Orchestrator.lint_file in-process and, for a fraction of "
@@ -456,10 +511,25 @@ def run(tier: str, seed: int, replay: str | None = None) -> int:
         cases = corpus_cases() + gen_cases(seed, n_cfg, n_files)
     impls = pool_map(run_impl, cases, procs=8)
     with scratch_dir("tv-c18-coq-") as wd:
-        try:
-            verdicts = judge(cases, impls, wd)
-        except RuntimeError as e:
-            chk.broken.append(f"Model:evaluation of the placement model failed ({str(e)[:400]})")
+        verdicts = None
+        failed = getattr(chk, "build_result", None).failed if getattr(chk, "build_result", None) else {}
+        model_built = not any(f"theories/{sub}/{name}" in failed for sub, name in MODEL_FILES)
+        if model_built:
+            try:
+                verdicts = judge(cases, impls, wd / "a")
+            except RuntimeError as e:
+                chk.broken.append(f"Model:evaluation of the placement model failed ({str(e)[:400]})")
+        if verdicts is None:
+            th = recorded_layer_theories(wd / "recorded")
+            if th is not None:
+                chk.notes.append("the current generated layer / model does not build: cases were judged with the model built against the "
+                                 "generated layer recorded for the unchanged tree (coq/Gen.expected/PlacementGen.v.txt), only to search "
+                                 "for a failing input; the broken obligations above already fail the run")
+                try:
+                    verdicts = judge(cases, impls, wd / "b", th=th)
+                except RuntimeError as e:
+                    chk.broken.append(f"Model:evaluation with the recorded generated layer failed too ({str(e)[:300]})")
+        if verdicts is None:
             verdicts = [None] * len(cases)
     # which candidate vector explains the implementation on ALL files (index 0 = the claimed vector)
     cands_all = None
